@@ -249,6 +249,8 @@ mod verif_codec {
     rle_guard!(k_rle_guard_len4, 4, 8);
     rle_guard!(k_rle_guard_len5, 5, 8);
     rle_guard!(k_rle_guard_len6, 6, 9);
+    rle_guard!(k_rle_guard_len8, 8, 11);
+    rle_guard!(k_rle_guard_len12, 12, 15);
 
     macro_rules! compose_roundtrip {
         ($name:ident, $r:expr, $a:expr, $b:expr, $unw:expr) => {
